@@ -599,7 +599,8 @@ def fam_htm(rng, layout, d, i):
         os.unlink(p)
     except OSError:
         pass
-    ids0 = h.lookup_id(ra20.copy(), dec20.copy())
+    # precomputed ids / reverse indices must describe the coordinates actually passed (the integer layouts round them)
+    ids0 = h.lookup_id(np.asarray(ra2, dtype="f8").ravel().copy(), np.asarray(dec2, dtype="f8").ravel().copy())
     try:
         from esutil import stat
         hist, rev0 = stat.histogram(ids0 - ids0.min(), rev=True)
